@@ -283,7 +283,7 @@ func (h *Hist) Do(st *Step) *wire.Msg {
 				}
 			}
 			if m.Type == wire.Tattach && e.User != st.Uid {
-				h.viol("C05", "C05;attach-user", fmt.Sprintf("Attach saw user %d, the client named %d: %s", e.User, st.Uid, desc), st)
+				h.viol("C05", fmt.Sprintf("C05;attach-user;dotu=%v", tab.Dotu), fmt.Sprintf("Attach saw user %d, the client named user %d (%q): %s", e.User, st.Uid, m.Uname, desc), st)
 			}
 			if want := expectedArgs(e.Op, m, tab.Dotu); want != "" && e.Op == v.Op && e.Args != want {
 				h.viol("C05", "C05;arguments;"+e.Op, fmt.Sprintf("implementation saw arguments {%s}, the client sent {%s}: %s", e.Args, want, desc), st)
